@@ -42,6 +42,7 @@ def main() -> int:
     ap.add_argument("--explain", default=None)
     ap.add_argument("--replay", default=None)
     ap.add_argument("--no-selftest", action="store_true")
+    ap.add_argument("--no-evidence", action="store_true", help="do not write evidence/violation files (scratch runs)")
     args = ap.parse_args()
     pid = args.property.upper()
 
@@ -69,7 +70,7 @@ def main() -> int:
                     return 0 if o.ok else 1
             print("obligation no longer generated (construct vanished)")
             return 1
-        rc = chk.finish()
+        rc = chk.finish(write=not args.no_evidence)
         if rc == 0 and args.tier == "thorough" and not args.no_selftest:
             from selftest.runner import run_for_property
 
